@@ -113,9 +113,11 @@ def validate(ctx, trace, mon, cfg="Trace_Market"):
     if not ev:
         raise vlib.ToolError("empty trace " + trace)
     # a round-trip event is judged together with its predecessor: never split between them
+    nparts = max(1, min(PAR, len(ev) // 4000)) if len(ev) <= PAR * CHUNK else -(-len(ev) // CHUNK)
+    size = -(-len(ev) // nparts)
     bounds, start = [], 0
     while start < len(ev):
-        end = min(len(ev), start + CHUNK)
+        end = min(len(ev), start + size)
         while end < len(ev) and ev[end].get("rt"):
             end += 1
         bounds.append((start, end))
